@@ -1,33 +1,41 @@
 -------------------------------- MODULE Avel --------------------------------
 (***************************************************************************)
 (* The AVEL abstract machine as ONE specification: a register file of      *)
-(* vectors (sequences of lanes), a register file of masks (sequences of    *)
-(* BOOLEAN), a byte memory, and the floating-point environment.  Every     *)
-(* public operation family is one named action built from the same         *)
-(* constant-level operator modules that judge the real code in trace       *)
-(* validation (IntLane, Mask, Mem, FEnv).                                  *)
+(* vectors (N lanes of W bytes), a register file of masks (N BOOLEANs), a  *)
+(* byte memory, and the floating-point environment.  Every public          *)
+(* operation family is one named action built from the same constant-level *)
+(* operator modules that judge single calls in TraceFacts (IntLane, Mask,  *)
+(* Mem, FEnv).  The machine is configuration independent: which #if arm    *)
+(* computes a result is not part of the state.                             *)
 (*                                                                         *)
-(* The component instances (MC_IntLane, MC_Mask, MC_Mem, MC_Alloc,         *)
-(* MC_Config) check the *meaning* of each operation against the            *)
-(* declarative property on larger domains.  This module checks what only   *)
-(* the composed machine can express:                                       *)
-(*   Frame             an operation changes its destination and nothing    *)
-(*                     else: no other register, no memory byte outside a   *)
-(*                     store's range, not the FP environment               *)
-(*   EnvOnlyBySetEnv   the rounding mode changes only by the program's own *)
-(*                     SetEnv step (C11, all operations)                   *)
-(*   MaskIsBooleans    comparison results are masks whose lanes are the    *)
-(*                     scalar truth values (C02/C03 link)                  *)
-(* Bounded instance: N lanes of one byte over a small lane domain.         *)
+(* Three uses of this one module:                                          *)
+(*   MC_Avel.cfg     bounded exploration (TLC, all behaviours up to        *)
+(*                   MaxDepth over a small lane domain): Frame,            *)
+(*                   EnvOnlyBySetEnv, MaskIsBooleans                       *)
+(*   TraceAvel.tla   trace validation: register programs executed by the   *)
+(*                   real vector / mask types (harness/drv_prog.cpp) are   *)
+(*                   replayed; every event must be a step of one of the    *)
+(*                   actions below, taken from the specification's own     *)
+(*                   state                                                 *)
+(*   Gen_Avel.tla    TLC -simulate writes random behaviours of this        *)
+(*                   machine; harness/replay_prog.cpp steps the real       *)
+(*                   objects through them and compares every post-state    *)
+(*                                                                         *)
+(* Each action is written as  Var' = [Var EXCEPT ![d] = <Result operator>] *)
+(* so that the result operators (VBinRes, VCmpRes, LoadRes, StoreRes ...)  *)
+(* are shared verbatim by the three uses.                                  *)
 (***************************************************************************)
 EXTENDS IntLane, Mask, Mem, FEnv, TLC
 
 CONSTANTS N,        \* lanes per vector
-          LaneDom,  \* set of lane values (naturals < 256) used by Init / SetLane
+          W,        \* bytes per lane (1, 2, 4, 8)
+          Kind,     \* "u" or "i": signedness of the element type
+          LaneDom,  \* set of lane values (naturals < 256, zero-extended to W bytes) used by SetLane in bounded exploration
           VRegs, KRegs,
-          MemSize   \* bytes of memory (a multiple of N)
+          MemSize,  \* bytes of memory
+          MaxDepth
 
-VARIABLES V,        \* VRegs -> Seq of N lanes (each <<byte>>)
+VARIABLES V,        \* VRegs -> Seq of N lanes (each a W-byte sequence)
           K,        \* KRegs -> Seq of N BOOLEAN
           mem,      \* 1..MemSize -> byte
           env,      \* rounding mode
@@ -36,59 +44,107 @@ VARIABLES V,        \* VRegs -> Seq of N lanes (each <<byte>>)
 vars == <<V, K, mem, env, last, depth>>
 View == <<V, K, mem, env>>
 
-Kind == "u"
-LaneOf(n) == <<n>>
-Lanes == {LaneOf(n) : n \in LaneDom}
-Image(v) == [b \in 1..N |-> v[b][1]]                 \* byte image of a vector (w = 1)
-FromImage(img) == [i \in 1..N |-> <<img[i]>>]
+ZeroLane == [b \in 1..W |-> 0]
+OneLane  == [b \in 1..W |-> IF b = 1 THEN 1 ELSE 0]
+OnesLane == [b \in 1..W |-> 255]
+\* byte image of a vector (what store / to_array produce) and back
+Image(v) == [b \in 1..(N * W) |-> v[((b - 1) \div W) + 1][((b - 1) % W) + 1]]
+FromImage(img) == [i \in 1..N |-> SubSeq(img, (i - 1) * W + 1, i * W)]
 Pre == [V |-> V, K |-> K, mem |-> mem, env |-> env]
 
-Init == /\ V = [r \in VRegs |-> [i \in 1..N |-> LaneOf(0)]]
+Init == /\ V = [r \in VRegs |-> [i \in 1..N |-> ZeroLane]]
         /\ K = [r \in KRegs |-> [i \in 1..N |-> FALSE]]
         /\ mem = [a \in 1..MemSize |-> 0]
         /\ env = "RN"
-        /\ last = [a |-> "init", d |-> "none", pre |-> <<>>] /\ depth = 0
+        /\ last = [a |-> "init", f |-> "init", d |-> "none", x |-> <<>>, pre |-> <<>>] /\ depth = 0
 
-Note(a, d) == last' = [a |-> a, d |-> d, pre |-> Pre] /\ depth' = depth + 1
-CONSTANT MaxDepth
+\* ghost: a = operation name, f = action family, d = destination, x = the other arguments, pre = the state it ran in
+Note(a, f, d, x) == last' = [a |-> a, f |-> f, d |-> d, x |-> x, pre |-> Pre] /\ depth' = depth + 1
 Bounded == depth < MaxDepth
 
-\* the program puts a value into one lane (models construction from an array)
-SetLane(r, i, x) == /\ V' = [V EXCEPT ![r][i] = x] /\ Note("setlane", r) /\ UNCHANGED <<K, mem, env>>
-\* lane-wise binary / unary integer operations (C01, C04, C07)
-VBin(o, d, a, b) == /\ V' = [V EXCEPT ![d] = [i \in 1..N |-> IntBin(o, Kind, V[a][i], V[b][i])]]
-                    /\ Note(o, d) /\ UNCHANGED <<K, mem, env>>
-VUn(o, d, a) == /\ \A i \in 1..N : IntUnDomain(o, Kind, V[a][i])
-                /\ V' = [V EXCEPT ![d] = [i \in 1..N |-> IntUn(o, Kind, V[a][i])]]
-                /\ Note(o, d) /\ UNCHANGED <<K, mem, env>>
-\* comparisons produce masks (C02)
-VCmp(o, k, a, b) == /\ K' = [K EXCEPT ![k] = [i \in 1..N |-> CmpOp(o, Kind, V[a][i], V[b][i])]]
-                    /\ Note(o, k) /\ UNCHANGED <<V, mem, env>>
-\* mask algebra (C03)
-KBin(o, k, a, b) == /\ K' = [K EXCEPT ![k] = MaskOp(o, K[a], K[b], <<>>)]
-                    /\ Note(o, k) /\ UNCHANGED <<V, mem, env>>
-KNot(k, a) == K' = [K EXCEPT ![k] = MNot(K[a])] /\ Note("m_not", k) /\ UNCHANGED <<V, mem, env>>
-\* selection through a mask (C07)
-VBlend(d, k, a, b) == /\ V' = [V EXCEPT ![d] = [i \in 1..N |-> Blend(K[k][i], V[a][i], V[b][i])]]
-                      /\ Note("blend", d) /\ UNCHANGED <<K, mem, env>>
-\* memory transfers of the first n lanes at byte offset p (C08)
-Load(d, p, n) == /\ p + N - 1 <= MemSize
-                 /\ V' = [V EXCEPT ![d] = FromImage(LoadResult(SubSeq(mem, p, p + N - 1), n, N, 1))]
-                 /\ Note("load", d) /\ UNCHANGED <<K, mem, env>>
-Store(a, p, n) == /\ p + N - 1 <= MemSize
-                  /\ mem' = [x \in 1..MemSize |-> IF x >= p /\ x < p + Active(n, N) THEN Image(V[a])[x - p + 1] ELSE mem[x]]
-                  /\ last' = [a |-> "store", d |-> <<p, n>>, pre |-> Pre] /\ depth' = depth + 1 /\ UNCHANGED <<V, K, env>>
-\* the program itself changes the rounding mode
-SetEnv(m) == env' = m /\ Note("setenv", "env") /\ UNCHANGED <<V, K, mem>>
+(***************************************************************************)
+(* Result operators (functions of the current state).                      *)
+(***************************************************************************)
+VBinRes(o, a, b)   == [i \in 1..N |-> IntBin(o, Kind, V[a][i], V[b][i])]
+VUnRes(o, a)       == [i \in 1..N |-> IntUn(o, Kind, V[a][i])]
+VUnDomL(o, a)      == [i \in 1..N |-> IntUnDomain(o, Kind, V[a][i])]       \* lanes whose result is specified
+VUnDom(o, a)       == \A i \in 1..N : VUnDomL(o, a)[i]
+\* shift / rotate by one scalar amount s (a W-byte sequence) and by a per-lane vector of amounts
+VShiftRes(o, a, s) == [i \in 1..N |-> IntShift(o, Kind, V[a][i], s)]
+VShiftDomL(o, a, s) == [i \in 1..N |-> IntShiftDomain(o, V[a][i], s)]
+VShiftDom(o, a, s) == \A i \in 1..N : VShiftDomL(o, a, s)[i]
+VShiftVRes(o, a, b) == [i \in 1..N |-> IntShift(o, Kind, V[a][i], V[b][i])]
+VShiftVDomL(o, a, b) == [i \in 1..N |-> IntShiftDomain(o, V[a][i], V[b][i])]
+VShiftVDom(o, a, b) == \A i \in 1..N : VShiftVDomL(o, a, b)[i]
+VCmpRes(o, a, b)   == [i \in 1..N |-> CmpOp(o, Kind, V[a][i], V[b][i])]
+KBinRes(o, a, b)   == MaskOp(o, K[a], K[b], <<>>)
+VBlendRes(k, a, b) == [i \in 1..N |-> Blend(K[k][i], V[a][i], V[b][i])]
+VKeepRes(k, a)     == [i \in 1..N |-> Keep(K[k][i], V[a][i])]
+VClearRes(k, a)    == [i \in 1..N |-> Clear(K[k][i], V[a][i])]
+VNegateRes(k, a)   == [i \in 1..N |-> Negate(K[k][i], V[a][i])]
+VSetBitsRes(k)     == [i \in 1..N |-> SetBits(K[k][i], W)]
+VFromMaskRes(k)    == [i \in 1..N |-> IF K[k][i] THEN OneLane ELSE ZeroLane]      \* Vector(mask): 1 / 0
+KFromVecRes(a)     == [i \in 1..N |-> ~BNIsZero(V[a][i])]                          \* mask(vector): lane != 0
+\* memory: p is a 1-based byte offset, n a lane count
+InMem(p)           == p >= 1 /\ p + N * W - 1 <= MemSize
+LoadRes(p, n)      == FromImage(LoadResult(SubSeq(mem, p, p + N * W - 1), n, N, W))
+StoreRes(a, p, n)  == [x \in 1..MemSize |->
+                         IF x >= p /\ x < p + Active(n, N) * W THEN Image(V[a])[x - p + 1] ELSE mem[x]]
+\* extract<I> / insert<I> (I 0-based)
+VInsertRes(a, I, x) == [V[a] EXCEPT ![I + 1] = x]
 
+(***************************************************************************)
+(* Actions: one per public operation family.                               *)
+(***************************************************************************)
+PutV(d, val, name, f, x) == V' = [V EXCEPT ![d] = val] /\ Note(name, f, d, x) /\ UNCHANGED <<K, mem, env>>
+PutK(k, val, name, f, x) == K' = [K EXCEPT ![k] = val] /\ Note(name, f, k, x) /\ UNCHANGED <<V, mem, env>>
+
+\* construction from an array / insertion of one lane
+SetVec(d, lanes)      == PutV(d, lanes, "setvec", "setvec", <<>>)
+SetLane(r, i, x)      == PutV(r, [V[r] EXCEPT ![i] = x], "setlane", "setvec", <<>>)
+VInsert(d, a, I, x)   == I \in 0..(N - 1) /\ PutV(d, VInsertRes(a, I, x), "insert", "insert", <<a, I, x>>)
+\* lane-wise integer operations (C01, C04, C06, C07)
+VBin(o, d, a, b)      == PutV(d, VBinRes(o, a, b), o, "bin", <<a, b>>)
+VUn(o, d, a)          == VUnDom(o, a) /\ PutV(d, VUnRes(o, a), o, "un", <<a>>)
+VShift(o, d, a, s)    == VShiftDom(o, a, s) /\ PutV(d, VShiftRes(o, a, s), o, "shift", <<a, s>>)
+VShiftV(o, d, a, b)   == VShiftVDom(o, a, b) /\ PutV(d, VShiftVRes(o, a, b), o, "shiftv", <<a, b>>)
+\* comparisons produce masks (C02); mask algebra (C03)
+VCmp(o, k, a, b)      == PutK(k, VCmpRes(o, a, b), o, "cmp", <<a, b>>)
+KBin(o, k, a, b)      == PutK(k, KBinRes(o, a, b), o, "kbin", <<a, b>>)
+KNot(k, a)            == PutK(k, MNot(K[a]), "m_not", "knot", <<a>>)
+KInsert(k, a, I, b)   == I \in 0..(N - 1) /\ PutK(k, MIns(K[a], I + 1, b), "m_insert", "kins", <<a, I, IF b THEN 1 ELSE 0>>)
+KSet(k, m)            == PutK(k, m, "m_set", "kset", <<>>)
+\* selection through a mask (C07), mask <-> vector conversions (C03)
+VBlend(d, k, a, b)    == PutV(d, VBlendRes(k, a, b), "blend", "blend", <<k, a, b>>)
+VKeep(d, k, a)        == PutV(d, VKeepRes(k, a), "keep", "keep", <<k, a>>)
+VClear(d, k, a)       == PutV(d, VClearRes(k, a), "clear", "clear", <<k, a>>)
+VNegate(d, k, a)      == PutV(d, VNegateRes(k, a), "negate", "negate", <<k, a>>)
+VSetBits(d, k)        == PutV(d, VSetBitsRes(k), "set_bits", "set_bits", <<k>>)
+VFromMask(d, k)       == PutV(d, VFromMaskRes(k), "b2v", "b2v", <<k>>)
+KFromVec(k, a)        == PutK(k, KFromVecRes(a), "nz", "nz", <<a>>)
+\* memory transfers of the first n lanes at byte offset p (C08, C09)
+Load(d, p, n)         == InMem(p) /\ PutV(d, LoadRes(p, n), "load", "load", <<p, n>>)
+Store(a, p, n)        == /\ InMem(p)
+                         /\ mem' = StoreRes(a, p, n)
+                         /\ last' = [a |-> "store", f |-> "store", d |-> <<p, n>>, x |-> <<a>>, pre |-> Pre] /\ depth' = depth + 1
+                         /\ UNCHANGED <<V, K, env>>
+\* the program itself changes the rounding mode: the ONLY action that may (C11)
+SetEnv(m)             == env' = m /\ Note("setenv", "setenv", "env", <<m>>) /\ UNCHANGED <<V, K, mem>>
+
+MCBin   == {"add", "sub", "mul", "and", "xor", "min", "max", "average"}
+MCUn    == {"neg", "not", "popcount", "bit_ceil"}
+MCCmp   == {"eq", "lt", "ge"}
+MCKBin  == {"m_and", "m_or", "m_xor"}
 Next ==
-  \/ \E r \in VRegs, i \in 1..N, x \in Lanes : SetLane(r, i, x)
-  \/ \E o \in {"add", "sub", "mul", "and", "xor", "min", "max", "average"}, d \in VRegs, a \in VRegs, b \in VRegs : VBin(o, d, a, b)
-  \/ \E o \in {"neg", "not", "popcount", "bit_ceil"}, d \in VRegs, a \in VRegs : VUn(o, d, a)
-  \/ \E o \in {"eq", "lt", "ge"}, k \in KRegs, a \in VRegs, b \in VRegs : VCmp(o, k, a, b)
-  \/ \E o \in {"m_and", "m_or", "m_xor"}, k \in KRegs, a \in KRegs, b \in KRegs : KBin(o, k, a, b)
+  \/ \E r \in VRegs, i \in 1..N, x \in LaneDom : SetLane(r, i, NumW(x, W))
+  \/ \E o \in MCBin, d \in VRegs, a \in VRegs, b \in VRegs : VBin(o, d, a, b)
+  \/ \E o \in MCUn, d \in VRegs, a \in VRegs : VUn(o, d, a)
+  \/ \E o \in MCCmp, k \in KRegs, a \in VRegs, b \in VRegs : VCmp(o, k, a, b)
+  \/ \E o \in MCKBin, k \in KRegs, a \in KRegs, b \in KRegs : KBin(o, k, a, b)
   \/ \E k \in KRegs, a \in KRegs : KNot(k, a)
   \/ \E d \in VRegs, k \in KRegs, a \in VRegs, b \in VRegs : VBlend(d, k, a, b)
+  \/ \E d \in VRegs, k \in KRegs : VFromMask(d, k) \/ VSetBits(d, k)
+  \/ \E k \in KRegs, a \in VRegs : KFromVec(k, a)
   \/ \E d \in VRegs, p \in 1..MemSize, n \in 0..(N + 1) : Load(d, p, n) \/ Store(d, p, n)
   \/ \E m \in Modes : SetEnv(m)
 Spec == Init /\ [][Next]_vars
@@ -96,25 +152,28 @@ Spec == Init /\ [][Next]_vars
 (***************************************************************************)
 (* Properties of the composed machine (state invariants over the ghost).   *)
 (***************************************************************************)
-VecOps == BinOps \cup UnOps
+VecActs == BinOps \cup UnOps \cup ShiftOps \cup {"blend", "keep", "clear", "negate", "set_bits", "b2v", "load",
+                                                  "setlane", "setvec", "insert"}
+MaskActs == CmpOps \cup {"m_and", "m_or", "m_xor", "m_not", "m_insert", "m_set", "nz"}
 \* (Lane independence needs no invariant here: every vector action is *defined* lane-wise,
 \*  [i |-> f(a[i], b[i])]; that the code computes lanes independently is what conformance checks,
 \*  by giving every lane different operands and moving operands between lanes.)
 
 Frame ==
-  /\ (last.a \notin {"init", "setenv"} => env = last.pre.env)
-  /\ (last.a \notin {"init", "store"} => mem = last.pre.mem)
+  \* ("force" is taken by the trace specification only: the state is set to what the real objects show)
+  /\ (last.a \notin {"init", "setenv", "force"} => env = last.pre.env)
+  /\ (last.a \notin {"init", "store", "force"} => mem = last.pre.mem)
   /\ (last.a = "store" =>
         LET p == last.d[1]  n == last.d[2] IN
-        \A x \in 1..MemSize : (x < p \/ x >= p + Active(n, N)) => mem[x] = last.pre.mem[x])
-  /\ (last.a \in VecOps \cup {"blend", "load", "setlane"} =>
+        \A x \in 1..MemSize : (x < p \/ x >= p + Active(n, N) * W) => mem[x] = last.pre.mem[x])
+  /\ (last.a \in VecActs =>
         /\ K = last.pre.K
         /\ \A r \in VRegs : r # last.d => V[r] = last.pre.V[r])
-  /\ (last.a \in CmpOps \cup {"m_and", "m_or", "m_xor", "m_not"} =>
+  /\ (last.a \in MaskActs =>
         /\ V = last.pre.V
         /\ \A r \in KRegs : r # last.d => K[r] = last.pre.K[r])
-EnvOnlyBySetEnv == (last.a # "init" /\ env # last.pre.env) => last.a = "setenv"
+EnvOnlyBySetEnv == (last.a # "init" /\ env # last.pre.env) => last.a \in {"setenv", "force"}
 MaskIsBooleans == \A r \in KRegs : K[r] \in [1..N -> BOOLEAN]
-TypeOK == /\ \A r \in VRegs : \A i \in 1..N : IsByteSeq(V[r][i], 1)
+TypeOK == /\ \A r \in VRegs : \A i \in 1..N : IsByteSeq(V[r][i], W)
           /\ env \in Modes
 =============================================================================
